@@ -53,7 +53,8 @@ TRUSTED_BASE = [
     "harness, line protocol, driver BFS orbit enumeration over the verified localComp",
 ]
 ASSUMPTIONS = [
-    "graphs are simple, n >= 1, nodes labelled 0..n-1 in order (as produced by nx.from_numpy_array); n = 0 makes row_reduction loop for ever and is outside the quantifier",
+    "graphs are simple, n >= 1, nodes labelled 0..n-1 in order (as produced by nx.from_numpy_array); n = 0 is outside the quantifier (it makes "
+    "row_reduction of the whole-graph algorithm loop for ever; the repaired is_lc_equivalent has no component to examine and returns (True, empty array))",
     "np.random.randint is the only randomness of mode='random' (recorded and replayed into the model)",
     "floating-point inverse of the pivot-column matrix is exact for the sizes explored (n <= 12)",
 ]
